@@ -29,3 +29,11 @@ Example C28_nonvacuous :
   let q2 := {| act := 0; res := {| rtype := 3; rid := Some 9; rorg := Some 8 |} |}%N in
   matchesV1 p q1 = true /\ matchesV1 p q2 = false.
 Proof. split; reflexivity. Qed.
+
+(** The same characterisation for the definition that go2v GENERATES from authz.go on
+    every run (coq/Gen/C28gen.v): this is the obligation that breaks when the source of
+    [Permission.matchesV1] changes meaning. *)
+From Verif Require Import Gen.C28gen Proofs.C28gen.
+Theorem C28_source_matches_iff : forall p q, matchesV1_gen p q = true <-> grants p q.
+Proof. exact gen_matches_iff. Qed.
+Print Assumptions C28_source_matches_iff.
